@@ -131,6 +131,22 @@ class C03(flow.Spec):
                 toks += ["1" if cov else "0", str(len(ids))] + ids
                 n += 1
             lines.append("chk_part %d %d %s" % (last, n, " ".join(toks)))
+        # the recorded seq ranges of every version (whose chunks agree on last_seq), at every step:
+        # disjoint, non-adjacent, inside 0..=last
+        wf = {}
+        for v in versions:
+            dl = [o for o in ops if o[0] == "D" and o[1] == v]
+            lasts = {o[4] for o in dl}
+            if len(lasts) == 1 and all(o[5] == list(range(o[2], o[3] + 1)) for o in dl):
+                wf[v] = lasts.pop()
+        for st in steps:
+            for m in re.finditer(r"v(\d+) db=\S* buf=\S* rows=(\S*) ", st + " "):
+                v = int(m.group(1))
+                rows = [x for x in m.group(2).split(",") if x]
+                if not rows or v not in wf:
+                    continue
+                rs = sorted((int(x.split(":")[0].split("-")[0]), int(x.split(":")[0].split("-")[1])) for x in rows)
+                lines.append("chk_seqrows %d %d %s" % (wf[v], len(rs), " ".join("%d %d" % (a, b) for a, b in rs)))
         return lines
 
 
